@@ -1,11 +1,11 @@
 package props
 
 import (
-	"strings"
 	"fmt"
 	"go/ast"
 	"go/token"
 	"go/types"
+	"strings"
 
 	"golang.org/x/tools/go/ssa"
 
@@ -16,8 +16,13 @@ import (
 // qualified rule with ';' as stop token. The rewind is done by rebuilding the token stream, so every token taken
 // from the iterator during the attempt has to be part of the rebuilt stream, in the order it was taken.
 func c06Rewind(c *core.Check) {
-	p := c.Prog
 	r := c.Rule("R6", "a failed declaration is re-parsed as a rule on the same tokens: in consumeBlocksContent the stream handed to consumeQualifiedRule is the concatenation of every slice that collected a token taken from the iterator (the declaration tokens, then the ';' that stopped the attempt) followed by the iterator's remaining tail", 3)
+	c06RewindRule(c, r)
+}
+
+// c06RewindRule is shared with C08.R12.
+func c06RewindRule(c *core.Check, r *core.Rule) {
+	p := c.Prog
 	fn := p.Fn("css/parser", "consumeBlocksContent")
 	if fn == nil {
 		r.Anchor("css/parser.consumeBlocksContent")
